@@ -18,8 +18,21 @@ def mk_ranking(raw):
     return ck.Ranking([set(b) for b in raw])
 
 
+FORM_COUNTS = {"datasets": 0, "datasets_from_other_forms": 0}
+
+
 def mk_dataset(raw, name=None):
-    d = ck.Dataset([mk_ranking(r) for r in raw])
+    """One dataset in twelve (chosen by a checksum of the raw data, hence reproducible) is built from rankings given in the
+    other accepted input forms (mk_ranking_form): every property then meets datasets whose rankings came from one-shot
+    iterables, tuples of frozensets, lists of lists."""
+    import zlib
+    FORM_COUNTS["datasets"] += 1
+    crc = zlib.crc32(repr(raw).encode()) if 0 < len(raw) <= 12 and sum(len(r) for r in raw) <= 200 else 1
+    if crc % 12 == 0:
+        FORM_COUNTS["datasets_from_other_forms"] += 1
+        d = mk_dataset_forms(raw, [FORMS[(crc >> (3 * i + 4)) % len(FORMS)] for i in range(len(raw))])
+    else:
+        d = ck.Dataset([mk_ranking(r) for r in raw])
     if name is not None:
         d.name = name
     return d
@@ -158,8 +171,14 @@ def make_algorithm(name):
         # documented: starting algorithms that are not all RankAggAlgorithm objects are ignored (default departures)
         return ck.BioConsert(starting_algorithms=[ck.BordaCount(), "not an algorithm"])
     if name.startswith("BioConsert["):
-        inner = name[len("BioConsert["):-1]
-        return ck.BioConsert(starting_algorithms=[make_algorithm(x) for x in split_top(inner)])
+        container, inner = starters_of(name)
+        starters = [make_algorithm(x) for x in inner]
+        given = {"list": lambda: starters, "tuple": lambda: tuple(starters), "set": lambda: set(starters),
+                 "frozenset": lambda: frozenset(starters),
+                 "dictvalues": lambda: {i: a for i, a in enumerate(starters)}.values(),
+                 "dictkeys": lambda: {a: i for i, a in enumerate(starters)}.keys(),
+                 "iter": lambda: iter(starters), "gen": lambda: (a for a in starters)}[container]()
+        return ck.BioConsert(starting_algorithms=given)
     if name == "Pulp":
         return ExactAlgorithmPulp()
     if name == "Exact":
@@ -184,6 +203,20 @@ def make_algorithm(name):
         from corankco.algorithms.exact.exactalgorithmcplexforpaperoptim1 import ExactAlgorithmCplexForPaperOptim1
         return ExactAlgorithmCplexForPaperOptim1()
     raise ValueError(name)
+
+
+STARTER_CONTAINERS = ("tuple", "set", "frozenset", "dictvalues", "dictkeys", "iter", "gen")
+
+
+def starters_of(name):
+    """'BioConsert[set:Borda,Copeland]' -> ('set', ['Borda', 'Copeland']); without prefix the container is a list"""
+    inner = name[len("BioConsert["):-1]
+    container = "list"
+    for c in STARTER_CONTAINERS:
+        if inner.startswith(c + ":"):
+            container, inner = c, inner[len(c) + 1:]
+            break
+    return container, split_top(inner)
 
 
 def split_top(s):
